@@ -106,7 +106,8 @@ structure VarBundle (e : BEnv) (Γ : Ctx) (cfg : SerCfg) (pcfg : ParserConfig) (
   short : var.listElement = false → (itemsN var x).length ≤ 1
   param : finalParam var (itemsN var x) = some x ∨
     (finalParam var (itemsN var x) = none ∧
-      ((x = .none ∧ fdNone ci var.name = true) ∨ (x = .list [] ∧ var.default = .listFactory)))
+      ((x = .none ∧ fdNone ci var.name = true) ∨ (x = .list [] ∧ var.default = .listFactory) ∨
+        (var.init = false ∧ ∃ p, x = .prim p ∧ var.default = .val p)))
 
 theorem itemTreeNN_prim (M : NsMap) (rec : Bool → QN → Val → Tree) (var : XmlVar) {y : Val}
     (h : ∀ c fs, y ≠ .obj c fs) : itemTreeNN M rec var y = primItemTree M var y := by
@@ -170,15 +171,41 @@ theorem prim_bundle (e : BEnv) (Γ : Ctx) (cfg : SerCfg) (pcfg : ParserConfig) (
     (hd : if var.tokens || var.listElement then
             var.default = .listFactory ∧ ¬ (var.tokens = true ∧ var.listElement = true ∧ var.nillable = true)
           else scalarDefault var.default t = true ∧ (var.nillable = true → var.default = .none))
+    (hinit : var.init = true ∨ fixedOK var = true)
     {x : Val} (rc : ClassId → Bool → Val → Bool)
     (hx : FN.elemValOK e Γ m ci var rc x = true) (f : Nat) (hfuel : 2 ≤ f) :
     VarBundle e Γ cfg pcfg M m ci ns rec f var x := by
   unfold FN.elemValOK at hx
+  rw [Bool.and_eq_true] at hx
+  obtain ⟨hfx, hx⟩ := hx
   simp only [hcl, hp] at hx
+  -- a var with `init=False` is a scalar that is not nillable
+  have hfixed : var.init = false → var.tokens = false ∧ var.listElement = false ∧ var.nillable = false ∧
+      ∃ p, x = .prim p ∧ var.default = .val p := by
+    intro hi
+    have hfo : fixedOK var = true := by
+      rcases hinit with h | h
+      · rw [hi] at h; cases h
+      · exact h
+    have hfv : fixedVal var x = true := by
+      simp only [Bool.or_eq_true] at hfx
+      rcases hfx with h | h
+      · rw [hi] at h; cases h
+      · exact h
+    simp only [fixedOK, Bool.and_eq_true, Bool.not_eq_true'] at hfo
+    exact ⟨hfo.1.1.1.1.1, hfo.1.1.1.1.2, hfo.1.1.1.2, fixedVal_iff.1 hfv⟩
+  have hinitOf : (var.tokens = true ∨ var.listElement = true ∨ var.nillable = true) → var.init = true := by
+    intro h
+    cases hi : var.init with
+    | true => rfl
+    | false =>
+      obtain ⟨h1, h2, h3, _⟩ := hfixed hi
+      rcases h with h | h | h <;> simp_all
   have hfI : ∀ fI, (fI = f + 1 ∨ (fI = f ∧ x.isArray = true)) → 2 ≤ fI := by
     intro fI h; rcases h with h | h <;> omega
   by_cases htok : var.tokens = true
-  · simp only [htok, if_true, Bool.true_or] at hx hd
+  · have hi : var.init = true := hinitOf (Or.inl htok)
+    simp only [htok, if_true, Bool.true_or] at hx hd
     by_cases hl : var.listElement = true
     · -- a list of token lists
       simp only [hl, if_true] at hx
@@ -205,8 +232,8 @@ theorem prim_bundle (e : BEnv) (Γ : Ctx) (cfg : SerCfg) (pcfg : ParserConfig) (
           (fun h => by simp [htok] at h) fI (hfI fI hF)
       · rw [hitems]
         cases xs with
-        | nil => exact Or.inr ⟨by simp [finalParam, hl], Or.inr ⟨rfl, hd.1⟩⟩
-        | cons a l => exact Or.inl (by simp [finalParam, hl])
+        | nil => exact Or.inr ⟨by simp [finalParam, hl, hi], Or.inr (Or.inl ⟨rfl, hd.1⟩)⟩
+        | cons a l => exact Or.inl (by simp [finalParam, hl, hi])
     · -- one token list
       have hl' : var.listElement = false := by simpa using hl
       simp only [hl', Bool.false_eq_true, if_false] at hx
@@ -236,14 +263,15 @@ theorem prim_bundle (e : BEnv) (Γ : Ctx) (cfg : SerCfg) (pcfg : ParserConfig) (
         cases ys with
         | nil =>
           by_cases hn : var.nillable = true
-          · exact Or.inl (by simp [finalParam, hl', hn])
+          · exact Or.inl (by simp [finalParam, hl', hn, hi])
           · have hn' : var.nillable = false := by simpa using hn
-            exact Or.inr ⟨by simp [finalParam, hl', hn'], Or.inr ⟨rfl, hd.1⟩⟩
-        | cons a l => exact Or.inl (by simp [finalParam, hl'])
+            exact Or.inr ⟨by simp [finalParam, hl', hn', hi], Or.inr (Or.inl ⟨rfl, hd.1⟩)⟩
+        | cons a l => exact Or.inl (by simp [finalParam, hl', hi])
   · have htok' : var.tokens = false := by simpa using htok
     simp only [htok', Bool.false_eq_true, if_false, Bool.false_or] at hx hd
     by_cases hl : var.listElement = true
-    · simp only [hl, if_true] at hx hd
+    · have hi : var.init = true := hinitOf (Or.inr (Or.inl hl))
+      simp only [hl, if_true] at hx hd
       cases x <;> simp at hx
       rename_i xs
       have hitems : itemsN var (.list xs) = xs := by simp [itemsN, htok']
@@ -263,8 +291,8 @@ theorem prim_bundle (e : BEnv) (Γ : Ctx) (cfg : SerCfg) (pcfg : ParserConfig) (
             (fun h => by cases h) (fun _ ys h => by cases h) fI (hfI fI hF)
       · rw [hitems]
         cases xs with
-        | nil => exact Or.inr ⟨by simp [finalParam, hl], Or.inr ⟨rfl, hd.1⟩⟩
-        | cons a l => exact Or.inl (by simp [finalParam, hl])
+        | nil => exact Or.inr ⟨by simp [finalParam, hl, hi], Or.inr (Or.inl ⟨rfl, hd.1⟩)⟩
+        | cons a l => exact Or.inl (by simp [finalParam, hl, hi])
     · have hl' : var.listElement = false := by simpa using hl
       simp only [hl', Bool.false_eq_true, if_false] at hx hd
       cases x with
@@ -272,7 +300,8 @@ theorem prim_bundle (e : BEnv) (Γ : Ctx) (cfg : SerCfg) (pcfg : ParserConfig) (
         simp only [Bool.or_eq_true] at hx
         by_cases hn : var.nillable = true
         · have hitems : itemsN var .none = [.none] := by simp [itemsN, hn]
-          refine ⟨Shape.none htok' hl', ?_, fun _ => by simp [hitems], Or.inl (by simp [hitems, finalParam, hl'])⟩
+          have hi : var.init = true := hinitOf (Or.inr (Or.inr hn))
+          refine ⟨Shape.none htok' hl', ?_, fun _ => by simp [hitems], Or.inl (by simp [hitems, finalParam, hl', hi])⟩
           rw [hitems]
           intro y hy fI hF
           simp only [List.mem_singleton] at hy
@@ -285,14 +314,21 @@ theorem prim_bundle (e : BEnv) (Γ : Ctx) (cfg : SerCfg) (pcfg : ParserConfig) (
           refine ⟨Shape.none htok' hl', by simp [hitems], fun _ => by simp [hitems], ?_⟩
           rcases hx with h | h
           · rw [hn'] at h; cases h
-          · exact Or.inr ⟨by simp [hitems, finalParam, hl'], Or.inl ⟨rfl, h⟩⟩
+          · exact Or.inr ⟨by simp [hitems, finalParam], Or.inl ⟨rfl, h⟩⟩
       | prim p =>
         have hitems : itemsN var (.prim p) = [.prim p] := rfl
         have hxx : primItemOK var t (.prim p) = true := by simpa using hx
         rcases primItemOK_cases hxx with ⟨h, _⟩ | ⟨p', hpp, hpt, hemp⟩
         · cases h
         · cases hpp
-          refine ⟨Shape.prim p htok' hl', ?_, fun _ => by simp [hitems], Or.inl (by simp [hitems, finalParam, hl'])⟩
+          refine ⟨Shape.prim p htok' hl', ?_, fun _ => by simp [hitems], ?_⟩
+          rotate_left
+          · cases hi : var.init with
+            | true => exact Or.inl (by simp [hitems, finalParam, hl', hi])
+            | false =>
+              obtain ⟨_, _, _, p', hpx, hpd⟩ := hfixed hi
+              cases hpx
+              exact Or.inr ⟨by simp [finalParam, hi], Or.inr (Or.inr ⟨rfl, p, rfl, hpd⟩)⟩
           rw [hitems]
           intro y hy fI hF
           simp only [List.mem_singleton] at hy
@@ -416,11 +452,13 @@ theorem cls_bundle (e : BEnv) (Γ : Ctx) (cfg : SerCfg) (pcfg : ParserConfig) (M
     (htk : var.tokens = false) (hty : var.types = [.cls c])
     (hd : if var.listElement then var.default = .listFactory else var.default = .none)
     (hm' : metaOf Γ c (targetUri m.qname) = some m') (hns' : nsAgree Γ m' var.qname = true)
-    (q : QN) (hnsq : nsAgree Γ m q = true) (hmem : var ∈ m.elementVars) {x : Val}
+    (q : QN) (hnsq : nsAgree Γ m q = true) (hmem : var ∈ m.elementVars) (hi : var.init = true) {x : Val}
     (hx : FN.elemValOK e Γ m ci var (valObjN e Γ n (targetUri m.qname)) x = true) (f : Nat)
     (hfuel : 4 * x.size + 2 ≤ f) :
     VarBundle e Γ cfg pcfg M m ci (targetUri q) (treeNN Γ cfg M n (targetUri m.qname)) f var x := by
   unfold FN.elemValOK at hx
+  rw [Bool.and_eq_true] at hx
+  replace hx := hx.2
   simp only [hcl, hm'] at hx
   have hobjOf : ∀ y, valObjN e Γ n (targetUri m.qname) c var.nillable y = true → y.isArray = false := by
     intro y hy
@@ -448,8 +486,8 @@ theorem cls_bundle (e : BEnv) (Γ : Ctx) (cfg : SerCfg) (pcfg : ParserConfig) (M
       · exact objItem_N e Γ cfg pcfg M n IH hf hcl htk hty hm' hns' q hnsq hmem y h fI hfI
     · rw [hitems]
       cases xs with
-      | nil => exact Or.inr ⟨by simp [finalParam, hl], Or.inr ⟨rfl, hd⟩⟩
-      | cons a l => exact Or.inl (by simp [finalParam, hl])
+      | nil => exact Or.inr ⟨by simp [finalParam, hl, hi], Or.inr (Or.inl ⟨rfl, hd⟩)⟩
+      | cons a l => exact Or.inl (by simp [finalParam, hl, hi])
   · have hl' : var.listElement = false := by simpa using hl
     simp only [hl', Bool.false_eq_true, if_false] at hx hd
     cases x with
@@ -458,7 +496,7 @@ theorem cls_bundle (e : BEnv) (Γ : Ctx) (cfg : SerCfg) (pcfg : ParserConfig) (M
       rcases hx with ⟨hn, hmn⟩ | ⟨hn, hfd⟩
       · have hitems : itemsN var .none = [.none] := by simp [itemsN, hn]
         refine ⟨Shape.none htk hl', ?_, fun _ => by simp [hitems],
-          Or.inl (by simp [hitems, finalParam, hl'])⟩
+          Or.inl (by simp [hitems, finalParam, hl', hi])⟩
         rw [hitems]
         intro y hy fI hF
         simp only [List.mem_singleton] at hy
@@ -467,11 +505,11 @@ theorem cls_bundle (e : BEnv) (Γ : Ctx) (cfg : SerCfg) (pcfg : ParserConfig) (M
           (by rcases hF with h | h <;> omega)
       · have hitems : itemsN var .none = [] := by simp [itemsN, hn]
         exact ⟨Shape.none htk hl', by simp [hitems], fun _ => by simp [hitems],
-          Or.inr ⟨by simp [hitems, finalParam, hl'], Or.inl ⟨rfl, hfd⟩⟩⟩
+          Or.inr ⟨by simp [hitems, finalParam, hl', hi], Or.inl ⟨rfl, hfd⟩⟩⟩
     | obj c' fs =>
       have hitems : itemsN var (.obj c' fs) = [.obj c' fs] := rfl
       refine ⟨Shape.obj c' fs htk hl', ?_, fun _ => by simp [hitems],
-        Or.inl (by simp [hitems, finalParam, hl'])⟩
+        Or.inl (by simp [hitems, finalParam, hl', hi])⟩
       rw [hitems]
       intro y hy fI hF
       simp only [List.mem_singleton] at hy
@@ -511,6 +549,8 @@ theorem items_nones {e : BEnv} {Γ : Ctx} {m : XmlMeta} {ci : ClassInfo} {var : 
         · cases hy
       · rename_i a l
         unfold FN.elemValOK at hx
+        rw [Bool.and_eq_true] at hx
+        replace hx := hx.2
         cases hk with
         | prim t hc hp _ _ =>
           simp only [hc, hp, htok, if_true] at hx
@@ -526,6 +566,8 @@ theorem items_nones {e : BEnv} {Γ : Ctx} {m : XmlMeta} {ci : ClassInfo} {var : 
     · have htok' : var.tokens = false := by simpa using htok
       simp only [itemsN, htok', Bool.false_eq_true, if_false] at hy
       unfold FN.elemValOK at hx
+      rw [Bool.and_eq_true] at hx
+      replace hx := hx.2
       cases hk with
       | prim t hc hp _ _ =>
         simp only [hc, hp, htok', Bool.false_eq_true, if_false] at hx
